@@ -78,6 +78,14 @@ Theorem C05_offset_sign_either_length_order :
 Proof. exact @associate_offset_sign. Qed.
 Print Assumptions C05_offset_sign_either_length_order.
 
+(* associate_trajectories on time-ordered inputs: the index pairs increase strictly on BOTH sides, whichever input is longer *)
+Theorem C05_associated_trajectories_in_time_order :
+  forall (A : Type) (t1 t2 : list (R * A)) (maxd off : R), t1 <> [] -> t2 <> [] ->
+  StronglySorted Rlt (stamps t1) -> StronglySorted Rlt (stamps t2) ->
+  StronglySorted lt_both (assoc_pairs t1 t2 maxd off).
+Proof. exact @associate_time_order. Qed.
+Print Assumptions C05_associated_trajectories_in_time_order.
+
 (* the executable checker used to classify implementation outputs is sound *)
 Theorem C05_checker_sound :
   forall (s1 s2 : list R) maxd off m, match_spec_b s1 s2 maxd off m = true ->
